@@ -133,7 +133,8 @@ FAIL_RE = re.compile(r'<<"FAIL", "(\w+)", (\d+), (\d+)>>')
 
 
 def run_report(trace_path, timeout):
-    r = vlib.tlc("TraceLedger", "TraceLedgerReport.cfg", workers=1, timeout=timeout,
+    # an explicit heap: up to 14 of these run side by side in the thorough tier (the JVM default is 25% of the RAM each)
+    r = vlib.tlc("TraceLedger", "TraceLedgerReport.cfg", workers=1, timeout=timeout, heap="4g",
                  extra_files=[("trace.ndjson", trace_path, None)])
     if r.error or r.rc != 0:
         raise vlib.Inconclusive("TLC report run failed: %s\n%s" % (r.error, r.out[-1500:]))
